@@ -500,4 +500,91 @@ func runC08(r *Run) {
 		r.st.Evaluations++
 		s.close()
 	}
+	r.c08ExpiryInsideRecovery()
+}
+
+// c08ExpiryInsideRecovery: the stored session is still valid when the connection is lost and runs out while the
+// recovery is retrying (the peer rejects the resume with an ordinary error status, one attempt per second). Whether the
+// session is presented is decided per attempt: the attempts made after the expiry authenticate with a fresh token.
+func (r *Run) c08ExpiryInsideRecovery() {
+	s := &session{tc: newTestClient(), v: 1, trans: "tcp"}
+	s.tcp = newTCPPeer()
+	stop := make(chan struct{})
+	var mu sync.Mutex
+	var cmds []string // per connection after the first: which session command arrived
+	go func() {
+		ci := -1
+		for {
+			pc := s.tcp.accept(6 * time.Second)
+			if pc == nil {
+				return
+			}
+			if !pc.readHandshake(time.Second) {
+				continue
+			}
+			ci++
+			my := ci
+			go func() {
+				for {
+					select {
+					case <-stop:
+						return
+					default:
+					}
+					f := pc.readFrame(50 * time.Millisecond)
+					if f == nil {
+						if pc.closed {
+							return
+						}
+						continue
+					}
+					if f.Type != 1 {
+						continue
+					}
+					switch f.Cmd {
+					case 2:
+						if my > 0 {
+							mu.Lock()
+							cmds = append(cmds, "AUTH")
+							mu.Unlock()
+						}
+						life := int64(600000)
+						if my == 0 {
+							life = 10000 + 1500 // by the client's rule (10 s early) the session is good for 1.5 s
+						}
+						pc.send(respFrame(1, 2, f.Rid, 0, authRespBody("sess", life)))
+					case 3:
+						mu.Lock()
+						cmds = append(cmds, "RECONNECT")
+						mu.Unlock()
+						pc.send(respFrame(1, 3, f.Rid, 7, errBody(500, "try again")))
+					}
+				}
+			}()
+		}
+	}()
+	n := 0
+	err := s.tc.dial(s.tcp.url(), 1, client.Keepalive(time.Hour), client.KeepaliveTimeout(2*time.Hour), client.DialTimeout(fDial), client.AuthTimeout(time.Second),
+		client.WithAuthTokenGetter(func() (string, error) { n++; return fmt.Sprintf("tok%d", n), nil }), client.MaxReconnect(6))
+	if err == nil {
+		s.tcp.mu.Lock()
+		first := s.tcp.all[0]
+		s.tcp.mu.Unlock()
+		first.close()
+		waitUntil(5*time.Second, func() bool { return s.tc.reconCount() >= 1 || len(s.tc.closeCallbacks()) > 0 })
+		mu.Lock()
+		got := strings.Join(cmds, " ")
+		mu.Unlock()
+		cs := "tcp: session good for 1.5 s (client rule), drop at once; RECONNECT is answered with status 7 (one attempt per second), AUTH is accepted; MaxReconnect 6"
+		// attempts at about 0 s and 1 s present the session, the attempt at about 2 s finds it expired and authenticates
+		if s.tc.reconCount() != 1 || !strings.HasSuffix(got, "AUTH") || strings.Count(got, "RECONNECT") > 3 {
+			r.violate(Violation{What: "a session that ran out while the recovery was retrying was still presented instead of a fresh authentication: session commands seen on the re-dialled connections: " + got +
+				fmt.Sprintf("; %d reconnect callbacks, close callbacks %v", s.tc.reconCount(), s.tc.closeCallbacks()), Case: cs})
+		}
+		r.st.Notes = append(r.st.Notes, "expiry inside a recovery: "+got)
+		r.st.Evaluations++
+		r.count("c08.expiry-inside-recovery")
+	}
+	close(stop)
+	s.close()
 }
